@@ -23,6 +23,70 @@ import (
 // pledge rows never show used<0, used>total or negative coins.
 type C07 struct {
 	flows, rows int64
+	taken       map[uint64]sdk.Int // per shard: collateral taken for it (completion + renewal top-ups), by the chain's own records at that time
+	shardOwner  map[uint64]string
+}
+
+// journal keeps the per-shard collateral journal and checks, per provider and event, that the shard collateral
+// total moved by exactly what was taken for the shards that started and what had been taken for the shards that ended.
+func (m *C07) journal(w *world.World, where, kind string, pre, post *mon.State) {
+	if m.taken == nil {
+		m.taken = map[uint64]sdk.Int{}
+		m.shardOwner = map[uint64]string{}
+	}
+	exp := map[string]sdk.Int{} // provider -> expected change of its shard collateral total
+	add := func(p string, v sdk.Int) {
+		if cur, ok := exp[p]; ok {
+			exp[p] = cur.Add(v)
+		} else {
+			exp[p] = v
+		}
+	}
+	for sid, sh := range post.Shards {
+		if sh.Status != ShardCompleted {
+			continue
+		}
+		old, had := pre.Shards[sid]
+		if !had || old.Status != ShardCompleted {
+			m.taken[sid] = sh.Pledge.Amount
+			m.shardOwner[sid] = sh.Sp
+			add(sh.Sp, sh.Pledge.Amount)
+			continue
+		}
+		if kind == "renew" && sh.Pledge.Amount.GT(old.Pledge.Amount) {
+			top := sh.Pledge.Amount.Sub(old.Pledge.Amount)
+			if t, ok := m.taken[sid]; ok {
+				m.taken[sid] = t.Add(top)
+			}
+			add(sh.Sp, top)
+		}
+	}
+	for sid, old := range pre.Shards {
+		if old.Status != ShardCompleted {
+			continue
+		}
+		if cur, ok := post.Shards[sid]; ok && cur.Status == ShardCompleted {
+			continue
+		}
+		if t, ok := m.taken[sid]; ok {
+			add(old.Sp, t.Neg())
+			delete(m.taken, sid)
+			delete(m.shardOwner, sid)
+		}
+	}
+	for p, want := range exp {
+		a, b := sdk.ZeroInt(), sdk.ZeroInt()
+		if pl, ok := pre.Pledges[p]; ok {
+			a = pl.TotalShardPledged.Amount
+		}
+		if pl, ok := post.Pledges[p]; ok {
+			b = pl.TotalShardPledged.Amount
+		}
+		m.flows++
+		if !b.Sub(a).Equal(want) {
+			w.Violate("C07", "shard-collateral-returned-differs-from-taken:"+kind, fmt.Sprintf("%s: provider %s: by the collateral taken for the shards that started/ended in this step (completion amounts plus renewal top-ups) its shard collateral should move by %s, but it moved by %s", where, shortAddr(p), want, b.Sub(a)), nil)
+		}
+	}
 }
 
 func (m *C07) ID() string { return "C07" }
@@ -155,6 +219,7 @@ func (m *C07) Tx(w *world.World, e *world.TxEvent) {
 		claimant = e.Signer.Addr.String()
 	}
 	m.checkFlows(w, fmt.Sprintf("tx %s (ok=%v)", e.Kind, e.OK), e.Kind, e.Pre, e.Post, e.Transfers, claimant)
+	m.journal(w, "tx "+e.Kind, e.Kind, e.Pre, e.Post)
 	m.rowsOK(w, e.Post, "after tx "+e.Kind)
 	if e.Kind == "remove-vstorage" && e.OK && e.Signer != nil {
 		p := e.Signer.Addr.String()
@@ -197,6 +262,7 @@ func (m *C07) Block(w *world.World, e *world.BlockEvent) {
 		m.checkFlows(w, "begin block", "begin", e.Prev, e.PostBegin, filterNoMint(e.BeginTransfers), "")
 	}
 	m.checkFlows(w, "end block", "endblock", e.PreEnd, e.Post, e.EndTransfers, "")
+	m.journal(w, "end block", "endblock", e.PreEnd, e.Post)
 	m.rowsOK(w, e.Post, "block boundary")
 	if countNode(e.EndTransfers) > 0 {
 		w.Case("c07:endblock-release:n=%d,debts=%v", countNode(e.EndTransfers), len(e.Post.Debts) > 0)
